@@ -91,8 +91,13 @@ def run(tier, replay=None):
         if err:
             run.mismatch({"kind": err.split(":")[0][:60]},
                          {"record": c, "problem": err, "line_hex": row.get("line_hex", "")[:600]})
-    run.traces = len(cases)
-    run.evaluations = len(cases)
+    # the message arrives in fragments (Fragments.tla; the same replay also renders {m})
+    gc, gm, _, _ = C.emit_and_replay(run, "MC_Fragments", "MC_Fragments.cfg", "c12_fragments", ["fragments"], timeout=900, workers=2)
+    for m in gm:
+        if m["mismatch"]["what"].startswith("json"):
+            run.mismatch({"kind": m["mismatch"]["what"]}, m)
+    run.traces = len(cases) + len(gc)
+    run.evaluations = len(cases) + len(gc)
     run.nontrivial = sum(1 for c in cases if any(x in special for f in ("message", "target", "module_path", "file", "thread")
                                                  for x in c[f]))
     if not run.mismatches and run.nontrivial < 1000:
